@@ -32,6 +32,9 @@ pub enum Op {
     Continue,
     CpuReset,
     Input(u8, u8),
+    MasterReset,
+    /// `Machine::load` of the case's own image again (through the assembler), on both machines
+    Reload,
 }
 
 #[derive(Clone, Debug, Serialize, Deserialize)]
@@ -55,6 +58,8 @@ fn op_strategy() -> impl Strategy<Value = Op> {
         1 => Just(Op::Continue),
         1 => Just(Op::CpuReset),
         1 => (0u8..4, any::<u8>()).prop_map(|(i, v)| Op::Input(i, v)),
+        1 => Just(Op::MasterReset),
+        1 => Just(Op::Reload),
     ]
 }
 
@@ -95,6 +100,21 @@ fn build(c: &StepCase) -> Machine {
     m.set_input_fe(c.inp[2]);
     m.set_input_ff(c.inp[3]);
     m
+}
+
+/// the case's image as a program text (data bytes only) with the case's limits, assembled
+fn reload_bytecode(c: &StepCase) -> Option<emulator_2a_lib::compiler::ByteCode> {
+    let m = build(c);
+    let mem = m.bus().memory();
+    let size = ["0", "16", "32", "48", "64"][c.stack as usize % 5];
+    let mut text = format!("#! mrasm\n*STACKSIZE {}\n*PROGRAMSIZE {}\n", size, c.limit);
+    for chunk in mem.chunks(16) {
+        text.push_str(" .DB ");
+        text.push_str(&chunk.iter().map(|b| b.to_string()).collect::<Vec<_>>().join(","));
+        text.push('\n');
+    }
+    let asm = emulator_2a_lib::parser::AsmParser::parse(&text).ok()?;
+    Some(emulator_2a_lib::compiler::Translator::compile(&asm))
 }
 
 pub enum RefEnd {
@@ -207,7 +227,7 @@ pub fn check_steps(c: &StepCase) -> (Verdict, StepStats) {
     }
     let mut inputs_dirty = false;
     for (i, op) in c.ops.iter().enumerate() {
-        if matches!(op, Op::Edges(_) | Op::CpuReset) {
+        if matches!(op, Op::Edges(_) | Op::CpuReset | Op::MasterReset | Op::Reload) {
             inputs_dirty = false;
         }
         match op {
@@ -305,6 +325,16 @@ pub fn check_steps(c: &StepCase) -> (Verdict, StepStats) {
             Op::CpuReset => {
                 m.cpu_reset();
                 t.cpu_reset();
+            }
+            Op::MasterReset => {
+                m.master_reset();
+                t.master_reset();
+            }
+            Op::Reload => {
+                if let Some(bc) = reload_bytecode(c) {
+                    m.load(bc.clone());
+                    t.load(bc);
+                }
             }
             Op::Input(i, v) => {
                 inputs_dirty = true;
